@@ -193,8 +193,24 @@ func runCACHESAFE(c *Ctx) {
 						if _, isLock := syncCall(ci, "RWMutex", "Lock"); isLock {
 							locked = true
 						}
-						// (a read lock does not do: an LRU lookup moves the entry to the front of the recency list —
-						// Get, and in some implementations Contains, write)
+						// a read lock does for a lookup that only reads (a plain map); it does not where the lookup goes
+						// through another object's method — an LRU moves the entry to the front of its recency list
+						if _, isLock := syncCall(ci, "RWMutex", "RLock"); isLock && mn != "Add" {
+							pure := true
+							for _, ci2 := range CallsOf(m) {
+								com := ci2.Common()
+								if _, isB := com.Value.(*ssa.Builtin); isB {
+									continue
+								}
+								if g := ir.Callee(com); g != nil && g.Pkg != nil && g.Pkg.Pkg.Path() == "sync" {
+									continue
+								}
+								pure = false
+							}
+							if pure {
+								locked = true
+							}
+						}
 						break // the first call decides
 					}
 				}
